@@ -55,21 +55,19 @@ def statements(tier):
 def run(tier, seed):
     t0 = time.time()
     res = {"bounded": True, "violations": [], "obligations": 0, "discharged": 0}
-    scratch = "/var/tmp/verif-c06-%d" % os.getpid()
-    shutil.rmtree(scratch, ignore_errors=True)
+    from . import e2e
+    bld = e2e.build()
+    if not bld["ok"]:
+        res["undecided"] = "cargo build failed: " + bld["err"]
+        return res
+    scratch = "%s/c06_%d" % (bld["scratch"], int(time.time() * 1000) % 100000)
     os.makedirs(scratch)
     try:
-        subprocess.run(["rsync", "-a", "--exclude", "target", "--exclude", ".git", REPO + "/", scratch + "/repo/"], check=True)
-        env = dict(os.environ, CARGO_TARGET_DIR=scratch + "/target", CARGO_NET_OFFLINE="true")
-        b = subprocess.run(["cargo", "build", "--release", "--offline"], cwd=scratch + "/repo", env=env, capture_output=True, text=True)
-        if b.returncode != 0:
-            res["undecided"] = "cargo build failed: " + b.stderr[-300:]
-            return res
-        binp = scratch + "/target/release/breadlog"
+        binp = bld["bin"]
         with open(scratch + "/harness.rs", "w") as f:
             f.write(HARNESS)
-        c = subprocess.run(["rustc", "--edition", "2021", "-O", scratch + "/harness.rs", "--extern", "breadlog=%s/target/release/libbreadlog.rlib" % scratch,
-                            "-L", "dependency=%s/target/release/deps" % scratch, "-o", scratch + "/harness"], capture_output=True, text=True)
+        c = subprocess.run(["rustc", "--edition", "2021", "-O", scratch + "/harness.rs", "--extern", "breadlog=%s/release/libbreadlog.rlib" % bld["target"],
+                            "-L", "dependency=%s/release/deps" % bld["target"], "-o", scratch + "/harness"], capture_output=True, text=True)
         if c.returncode != 0:
             res["undecided"] = "harness did not compile: " + c.stderr[-300:]
             return res
